@@ -284,6 +284,15 @@ def policy_stream(ctx, prop, kinds, npol, nev, arches=None, defects=None, le_cho
             lines.append("P %s %d %s %s" % (cid, le, atok, PolicyGen.tokens(pol)))
             if nev:
                 lines += pg.events(pol, nev, foreign_share=foreign_share, x32_share=x32_share)
+            if not defect and pol["groups"] and rng.random() < 0.08:
+                # the SAME policy value, edited in place (same default action, same number of groups) and assembled again
+                pol2 = pg.edited(pol)
+                cid2 = cid + "e"
+                meta[cid2] = dict(kind=kind + "/edited-in-place", arch=an, defect=None, le=le, groups=len(pol2["groups"]), arch_token="@>" + an)
+                dist[kind + "/edited-in-place"] = dist.get(kind + "/edited-in-place", 0) + 1
+                lines.append("P %s %d @>%s %s" % (cid2, le, an, PolicyGen.tokens(pol2)))
+                if nev:
+                    lines += pg.events(pol2, max(5, nev // 2), foreign_share=foreign_share, x32_share=x32_share)
         for (cid, line, evs, m) in (extra_cases(pg, rng) if extra_cases else []):
             meta[cid] = m
             dist[m.get("kind", "extra")] = dist.get(m.get("kind", "extra"), 0) + 1
@@ -401,10 +410,11 @@ def check_C03(ctx, replay=None):
     check_core_policy(ctx, "C03", "C03.v",
                       ["C03_compiled_program_is_decide", "C03_match_is_for_own_syscall", "C03_any_satisfied_list_matches",
                        "C03_unmatched_entry_as_absent", "C03_programs_agree_without_unmatched_entry",
-                       "C03_source_entry_is_the_model", "C03_validated_entries_nondegenerate", "C03_nonvacuous"],
+                       "C03_source_entry_is_the_model", "C03_source_merge_is_the_model", "C03_validated_entries_nondegenerate", "C03_nonvacuous"],
                       ["cond", "cond", "mixed", "mixed", "mixed_long", "condlong"],
-                      "policies mixing unconditional and conditional entries (1..4 groups, repeated names merged into OR lists, 1..85 conditions per list, repeated arguments, the same syscall in several groups), compiled by the implementation and the extracted model (instruction-exact comparison); every accepted program run on events aimed at each list (satisfying / nearly satisfying every condition) and on events whose argument words equal other entries' syscall numbers and operands, against the extracted decide; non-trivial = accepted policy with conditional entries and events evaluated",
-                      replay=replay, npol=(400, 4000), nev=(50, 100), gen=gen)
+                      "policies mixing unconditional and conditional entries (1..4 groups, repeated names merged into OR lists, related alternatives of one syscall - sub-list, longer list, same list, permuted, one operand or operation changed - in either order, 1..85 conditions per list, repeated arguments, the same syscall in several groups; the four tables and the x32 table, whose numbers carry a mask - events then also use the numbers without the mask), compiled by the implementation and the extracted model (instruction-exact comparison); every accepted program run on events aimed at each list (satisfying / nearly satisfying every condition) and on events whose argument words equal other entries' syscall numbers and operands, against the extracted decide; non-trivial = accepted policy with conditional entries and events evaluated",
+                      replay=replay, npol=(400, 4000), nev=(50, 100), gen=gen,
+                      arches=PolicyGen.TABLE_ARCHES * 2 + ["X32"])
 
 
 # ------------------------------------------------------------------------------------------------ C04
